@@ -1,3 +1,4 @@
+import inspect
 from abc import ABC
 from enum import StrEnum
 from typing import TypeVar, Callable, Generic
@@ -84,13 +85,28 @@ class WithDecoratedMethods(ABC, Generic[E], GenericMixin):
         decorated_functions = {t: dict() for t in decorator_types}  # type: ignore
 
         for attribute_name in dir(self):
-            if attribute_name.startswith('__'):
+            # Look at the raw attribute first: only functions defined in a class (plain, static or class methods) can be
+            # decorated methods. Properties are not evaluated and other objects are passed over.
+            raw = inspect.getattr_static(self, attribute_name, None)
+            function = raw.__func__ if isinstance(raw, (staticmethod, classmethod)) else raw
+
+            if not inspect.isfunction(function):
                 continue
 
+            # what create_decorator() has set on the function - not what functions, strings, ... define by themselves
+            marks = vars(function)
             attribute = getattr(self, attribute_name)
 
+            if isinstance(raw, staticmethod):
+                is_method = attribute is function
+            else:
+                is_method = inspect.ismethod(attribute) and attribute.__func__ is function
+
+            if not is_method:
+                continue  # e.g. a function that is stored on the instance: it is not one of its methods
+
             for decorator_type in decorator_types:  # type: ignore
-                if hasattr(attribute, decorator_type):
-                    decorated_functions[decorator_type][attribute] = getattr(attribute, decorator_type)
+                if decorator_type in marks:
+                    decorated_functions[decorator_type][attribute] = marks[decorator_type]
 
         return decorated_functions
